@@ -3,6 +3,7 @@
 mod common;
 mod dev;
 mod progs;
+mod realsh;
 mod props;
 mod refsh;
 mod vsh;
@@ -14,6 +15,11 @@ fn main() {
     if args.len() < 2 {
         eprintln!("usage: yv <property> [--tier quick|thorough] [--replay file]");
         std::process::exit(2);
+    }
+    if args[1] == "real-shell" {
+        let mut a = vec!["yash".to_string()];
+        a.extend(args[2..].iter().cloned());
+        realsh::real_shell(a);
     }
     if args[1] == "sh" {
         std::process::exit(dev::main(&args[2..]));
@@ -66,6 +72,7 @@ fn main() {
             "C16" => props::c16::replay(case),
             "C17" => props::c17::replay(case),
             "C18" => props::c18::replay(case),
+            "C19" => props::c19::replay(case),
             "C20" => props::c20::replay(case),
             _ => {
                 eprintln!("no replay for {id}");
@@ -93,6 +100,7 @@ fn main() {
         "C16" => props::c16::run(tier),
         "C17" => props::c17::run(tier),
         "C18" => props::c18::run(tier),
+        "C19" => props::c19::run(tier),
         "C20" => props::c20::run(tier),
         _ => {
             eprintln!("unknown property {id}");
